@@ -67,14 +67,12 @@ type env struct {
 	st  *rawBackend // backend of cluster cst (TLS stream tunnels)
 }
 
-var envs [2]*env
+var envs [3]*env
 
-// setup(idle): idle = true is a second server whose ClientReadTimeout is 1 s (tunnels that contain an idle event)
-func setup(idle bool) *env {
-	k := 0
-	if idle {
-		k = 1
-	}
+// setup(mode): 0 = the normal server; 1 = a second server whose ClientReadTimeout is 1 s (tunnels that contain an idle
+// event); 2 = a third server whose TLS rules enable DynamicRecord (tunnel kinds 2 and 3)
+func setup(k int) *env {
+	idle, dynrec := k == 1, k == 2
 	if envs[k] != nil {
 		return envs[k]
 	}
@@ -101,10 +99,16 @@ func setup(idle bool) *env {
 				panic("c47: tls_rule_conf.data")
 			}
 			v["DefaultNextProtos"] = []string{"stream", "http/1.1"}
+			if dynrec {
+				v["DefaultDynamicRecord"] = true
+			}
 			if cfgs, ok := v["Config"].(map[string]interface{}); ok {
 				for _, pc := range cfgs {
 					if pm, ok := pc.(map[string]interface{}); ok {
 						pm["NextProtos"] = []string{"stream", "http/1.1"}
+						if dynrec {
+							pm["DynamicRecord"] = true
+						}
 					}
 				}
 			}
@@ -215,14 +219,28 @@ func (e *env) runTunnel(t tunnel, accept *sync.Mutex) hv.Val {
 	var cc, bc net.Conn
 	var cend, bend *end
 	accept.Lock()
-	if t.kind == 0 {
-		c, err := net.DialTimeout("tcp", e.srv.Addr, deadline)
+	if t.kind == 0 || t.kind == 3 {
+		addr := e.srv.Addr
+		if t.kind == 3 {
+			addr = e.srv.TLSAddr
+		}
+		c, err := net.DialTimeout("tcp", addr, deadline)
 		if err != nil {
 			accept.Unlock()
 			return errVal()
 		}
 		cc = c
 		cc.SetDeadline(until)
+		if t.kind == 3 { // wss: the upgrade runs inside a TLS connection that negotiated http/1.1
+			tc := tls.Client(c, &tls.Config{InsecureSkipVerify: true, NextProtos: []string{"http/1.1"}, ServerName: "example.org",
+				MaxVersion: tls.VersionTLS12})
+			if err := tc.Handshake(); err != nil {
+				accept.Unlock()
+				c.Close()
+				return errVal()
+			}
+			cc = tc
+		}
 		req := "GET /tunnel HTTP/1.1\r\nHost: ws.example.org\r\nUpgrade: websocket\r\nConnection: Upgrade\r\n" +
 			"Sec-WebSocket-Key: dGhlIHNhbXBsZSBub25jZQ==\r\nSec-WebSocket-Version: 13\r\n\r\n"
 		// the upgrade request and the early bytes leave in ONE write
@@ -341,9 +359,49 @@ func (e *env) runTunnel(t tunnel, accept *sync.Mutex) hv.Val {
 	cend.waitFor(func() bool { return cend.done }, until)
 	bend.mu.Lock()
 	cend.mu.Lock()
-	out := hv.L{hv.B(append([]byte(nil), bend.got...)), hv.B(append([]byte(nil), cend.got...)), hv.Bool(bend.done), hv.Bool(cend.done)}
+	bgot, cgot := append([]byte(nil), bend.got...), append([]byte(nil), cend.got...)
+	if t.kind == 2 {
+		bgot, cgot = collapse(bgot), collapse(cgot)
+	}
+	out := hv.L{hv.B(bgot), hv.B(cgot), hv.Bool(bend.done), hv.Bool(cend.done)}
 	cend.mu.Unlock()
 	bend.mu.Unlock()
+	return out
+}
+
+// block scaling of kind 2 tunnels: a wire value stands for blockSize bytes of that value
+const blockSize = 4096
+
+func expand(b []byte) []byte {
+	out := make([]byte, 0, len(b)*blockSize)
+	for _, v := range b {
+		out = append(out, bytes.Repeat([]byte{v}, blockSize)...)
+	}
+	return out
+}
+
+// collapse maps every complete uniform block to its value; a block that is not uniform, or a partial last block, to 255.
+func collapse(b []byte) []byte {
+	out := []byte{}
+	for len(b) > 0 {
+		n := blockSize
+		if len(b) < n {
+			out = append(out, 255)
+			break
+		}
+		v, uni := b[0], true
+		for _, x := range b[:n] {
+			if x != v {
+				uni = false
+				break
+			}
+		}
+		if !uni {
+			v = 255
+		}
+		out = append(out, v)
+		b = b[n:]
+	}
 	return out
 }
 
@@ -372,7 +430,7 @@ func decode(in hv.Val) ([]tunnel, bool) {
 			return nil, false
 		}
 		t := tunnel{kind: int(hv.AsInt(f[0])), cearly: ce, bearly: be, closer: int(hv.AsInt(f[4])), mode: int(hv.AsInt(f[5]))}
-		if t.kind < 0 || t.kind > 1 || t.closer < 0 || t.closer > 1 || t.mode < 0 || t.mode > 1 {
+		if t.kind < 0 || t.kind > 3 || t.closer < 0 || t.closer > 1 || t.mode < 0 || t.mode > 1 {
 			return nil, false
 		}
 		for _, evv := range evs {
@@ -385,7 +443,13 @@ func decode(in hv.Val) ([]tunnel, bool) {
 			if !ok || side < 0 || side > 2 || sy < 0 || sy > 1 || (side == 2 && (len(d) != 0 || sy != 0)) {
 				return nil, false
 			}
+			if t.kind == 2 {
+				d = expand(d)
+			}
 			t.events = append(t.events, event{side, d, sy == 1})
+		}
+		if t.kind == 2 {
+			t.cearly, t.bearly = expand(t.cearly), expand(t.bearly)
 		}
 		ts = append(ts, t)
 	}
@@ -405,7 +469,16 @@ func impl(in hv.Val) hv.Val {
 			}
 		}
 	}
-	e := setup(idle)
+	mode := 0
+	if idle {
+		mode = 1
+	}
+	for _, t := range ts {
+		if t.kind >= 2 {
+			mode = 2
+		}
+	}
+	e := setup(mode)
 	for _, rb := range []*rawBackend{e.ws, e.st} { // connections left over from a failed case
 		for drained := false; !drained; {
 			select {
@@ -424,7 +497,7 @@ func impl(in hv.Val) hv.Val {
 		go func(i int) {
 			defer wg.Done()
 			acc := &accWS
-			if ts[i].kind == 1 {
+			if ts[i].kind == 1 || ts[i].kind == 2 {
 				acc = &accST
 			}
 			out[i] = e.runTunnel(ts[i], acc)
@@ -472,6 +545,8 @@ func genTunnel(r *hv.Rng, big bool) (hv.Val, string) {
 	kind := 0
 	if r.Chance(1, 3) {
 		kind = 1
+	} else if r.Chance(1, 6) {
+		kind = 3
 	}
 	ce, be := size(r), size(r)
 	if r.Chance(1, 5) {
@@ -480,7 +555,7 @@ func genTunnel(r *hv.Rng, big bool) (hv.Val, string) {
 	if r.Chance(1, 5) {
 		be = 0
 	}
-	class := []string{"ws", "stream"}[kind]
+	class := []string{"ws", "stream", "stream-dynrec", "wss"}[kind]
 	if big { // beyond the 4 KiB bufio buffers of the HTTP server / the backend-side reader
 		if r.Bool() {
 			ce = r.Range(3950, 4500)
@@ -524,8 +599,34 @@ func gen(r *hv.Rng, i int, tier string) (string, hv.Val) {
 		}
 		return "idle-ws-stream", ts
 	}
+	if i%24 == 9 {
+		// bulk through a DynamicRecord stream tunnel (block-scaled): more than 1 MB one way in 256 KiB writes, then without
+		// a pause further writes of 32 KiB (above the 16 KiB record limit) and traffic the other way
+		blocks := func(n int) hv.B {
+			b := make([]byte, n)
+			for k := range b {
+				b[k] = byte(1 + r.Intn(250))
+			}
+			return hv.B(b)
+		}
+		heavy, light := 1, 0 // heavy side sends the megabyte
+		if (i/24)%2 == 1 {
+			heavy, light = 0, 1
+		}
+		evs := hv.L{}
+		for k := 0; k < 5; k++ {
+			evs = append(evs, hv.L{hv.I(heavy), blocks(64), hv.I(0)})
+		}
+		evs = append(evs, hv.L{hv.I(heavy), blocks(8), hv.I(1)}, hv.L{hv.I(heavy), blocks(8), hv.I(r.Intn(2))},
+			hv.L{hv.I(light), blocks(1 + r.Intn(3)), hv.I(1)}, hv.L{hv.I(heavy), blocks(8), hv.I(1)}, hv.L{hv.I(light), blocks(8), hv.I(1)})
+		ts := hv.L{hv.L{hv.I(2), blocks(r.Intn(3)), blocks(r.Intn(3)), evs, hv.I(r.Intn(2)), hv.I(r.Intn(2))}}
+		t2, _ := genTunnel(r, false)
+		t2.(hv.L)[0] = hv.I(3) // plus a wss tunnel on the same DynamicRecord server
+		ts = append(ts, t2)
+		return "bulk-dynrec-stream", ts
+	}
 	if i%41 == 7 {
-		bad := []hv.Val{hv.L{}, hv.I(1), hv.L{hv.L{hv.I(2), hv.B{}, hv.B{}, hv.L{}, hv.I(0), hv.I(0)}},
+		bad := []hv.Val{hv.L{}, hv.I(1), hv.L{hv.L{hv.I(4), hv.B{}, hv.B{}, hv.L{}, hv.I(0), hv.I(0)}},
 			hv.L{hv.L{hv.I(0), hv.B{}, hv.B{}, hv.L{hv.L{hv.I(3), hv.B{1}, hv.I(0)}}, hv.I(0), hv.I(0)}}}
 		return "triv-malformed", bad[r.Intn(len(bad))]
 	}
